@@ -27,7 +27,8 @@ def raw_blocks(col, coords_list):
     """the same shapely calls as TrenchColumn._dig, up to the MultiPolygon of raw blocks"""
     blocks = rect_of(col)
     for coords in coords_list:
-        blocks = blocks.difference(geometry.LineString(coords).buffer(col.adj_bridge, cap_style=1))
+        # the adjusted bridge from the column's current fields (not through col.adj_bridge)
+        blocks = blocks.difference(geometry.LineString(coords).buffer(col.bridge / 2 + col.beam_waist + col.round_corner, cap_style=1))
     return blocks
 
 
@@ -47,6 +48,9 @@ def run_case(rng, utrench=False):
         # nothing and adds no block), then moved / resized to its final place and dug again
         moved = {'x_center': kw['x_center'] + rng.choice([60.0, -45.0]), 'y_max': kw['y_max'] + rng.choice([0.15, -0.03, 0.0]),
                  'length': rng.choice([0.5, 1.2, kw['length']])}
+        if rng.random() < 0.5:
+            # ... and the clearance parameters are changed as well
+            moved.update(bridge=rng.choice([0.08, 0.014]), beam_waist=rng.choice([0.008, 0.001]), round_corner=rng.choice([0.025, 0.002]))
         final = {k: getattr(col, k) for k in moved}
         for k, v in moved.items():
             setattr(col, k, v)
@@ -107,7 +111,7 @@ def run_case(rng, utrench=False):
         if not nothing and not remove:
             far = rect_of(col)
             for w in wl:
-                far = far.difference(w.buffer(col.adj_bridge * 1.01 + 1e-6))
+                far = far.difference(w.buffer((col.bridge / 2 + col.beam_waist + col.round_corner) * 1.01 + 1e-6))
             unc = far.difference(unary_union(blocks)) if blocks else far
             # slivers thinner than 2e-6 mm (float32 coordinates of the blocks against the float64 rectangle) are not area
             cover_ok = unc.area <= 1e-9 or unc.buffer(-1e-6).area <= 1e-12
